@@ -298,6 +298,8 @@ impl MachineState {
     #[inline(always)]
     pub(crate) fn check_for_interrupt(&mut self) -> bool {
         if INTERRUPT.swap(false, atomic::Ordering::Relaxed) {
+            #[cfg(feature = "verif")]
+            crate::verif_hooks::note_interrupt_delivery();
             self.throw_interrupt_exception();
             self.backtrack();
 
@@ -1628,6 +1630,8 @@ impl Machine {
                 if interrupt_counter.0 == 0 {
                     break;
                 }
+                #[cfg(feature = "verif")]
+                crate::verif_hooks::instr_tick();
                 match self.code[self.machine_st.p] {
                     Instruction::BreakFromDispatchLoop => {
                         break 'outer;
@@ -1703,6 +1707,9 @@ impl Machine {
                 if interrupt_counter.0 == 0 {
                     break;
                 }
+
+                #[cfg(feature = "verif")]
+                crate::verif_hooks::instr_tick();
 
                 let Some(inst) = self.code.get(self.machine_st.p) else {
                     // a separate function marked #[cold] to make the compiler/branch-predictor prefer the happy path
